@@ -8,3 +8,5 @@ cd /verif/harness && cargo build --release --offline
 # rebuilt incrementally by the check itself, this only pays the cold cost once
 (cd /repo && cargo build --offline --release -p rasn-compiler --features cli --bin rasn_compiler_cli --target-dir /verif/harness/target/cli) || true
 (cd /verif/macrohost && cargo +nightly rustc --offline --lib -- -Zunpretty=expanded >/dev/null) || true
+# C08 thorough tier: the libFuzzer target (rebuilt by the check itself as well)
+(cd /verif/fuzzhost/fuzz && cargo +nightly fuzz build c08 >/dev/null 2>&1) || true
